@@ -57,10 +57,17 @@ structure Slot where
   cb : Ref := .zero           -- type / tag_reg / storage2 (or the transfer the record belongs to)
   st1 : Nat := 0              -- storage1
   isRecv : Bool := false      -- is_dynamic_recv
+  fin : Bool := false         -- ghost: MPI reported the (non persistent) request complete, its callback has not run yet
   deriving DecidableEq, Repr
 
 /-- `array_of_requests[i] = MPI_REQUEST_NULL` (the callback record stays). -/
 def Slot.clear (sl : Slot) : Slot := { sl with req := none }
+
+/-- MPI completes a non persistent request: the handle becomes MPI_REQUEST_NULL. -/
+def Slot.finish (sl : Slot) : Slot := { sl with req := none, fin := true }
+
+/-- The callback of the completed request is being run. -/
+def Slot.unfin (sl : Slot) : Slot := { sl with fin := false }
 
 def amSlot (tag r a : Nat) : Slot := { req := some (.am tag r), cb := .am tag r, st1 := a, isRecv := false }
 
@@ -182,13 +189,15 @@ def DynR.install (d : DynR) (x : Dyn) : DynR :=
     MPI_REQUEST_NULL into the array. -/
 def DynR.complete (d : DynR) (j : Nat) : DynR :=
   match d.slots[j]? with
-  | some sl => { d with slots := d.slots.set j sl.clear }
+  | some sl => { d with slots := d.slots.set j sl.finish }
   | none => d
 
 /-- `if (cb->is_dynamic_recv) mpi_funnelled_num_recv_req_in_arr--` for the record at offset `j`. -/
 def DynR.serve (d : DynR) (j : Nat) : DynR :=
   match d.slots[j]? with
-  | some sl => if sl.isRecv then { d with nrecv := d.nrecv - 1 } else d
+  | some sl =>
+    { d with nrecv := if sl.isRecv then d.nrecv - 1 else d.nrecv,
+             slots := d.slots.set j sl.unfin }
   | none => d
 
 /-- One iteration of the removal loop for a completed index `pos = base + j`. -/
@@ -295,8 +304,10 @@ def St.test (s : St) (c : List Nat) : St := c.foldl St.complete s
 def St.serve (s : St) (pos : Nat) : St :=
   match s.slotAt pos with
   | some sl =>
-    { s with dyn := if sl.isRecv then { s.dyn with nrecv := s.dyn.nrecv - 1 } else s.dyn,
-             served := s.served ++ [sl.cb] }
+    match s.locate pos with
+    | .dyn j => { s with dyn := s.dyn.serve j, served := s.served ++ [sl.cb] }
+    | _ => { s with dyn := if sl.isRecv then { s.dyn with nrecv := s.dyn.nrecv - 1 } else s.dyn,
+                    served := s.served ++ [sl.cb] }
   | none => s
 
 /-- After the user callback returned. -/
